@@ -529,4 +529,56 @@ theorem closed_run {ex : Nat → Bool} {g0 : GStore} (ops : List GOp) (g : GStor
     simp only [runG, List.foldl_cons]
     exact ih (stepG g op) (closed_step h op hops.1) hops.2
 
+/-! ### the inventory over histories -/
+
+theorem createG_toStore (g : GStore) (f : List Char) (a : Bool) (rs : List Nat) :
+    (createG g f a rs).1.toStore = (createObject g.toStore f a).1 ∧ (createG g f a rs).2 = (createObject g.toStore f a).2 := by
+  unfold createG
+  split <;> rename_i heq <;> rw [heq] <;> exact ⟨rfl, rfl⟩
+
+/-- no operation removes a component entry or changes its identifier / locator -/
+theorem components_persist_step (g : GStore) (op : GOp) (c : Component) (hc : c ∈ g.components) :
+    ∃ c' ∈ (stepG g op).components, c'.identifier = c.identifier ∧ c'.locator = c.locator ∧ c'.preferred = c.preferred := by
+  have same : ∀ g' : GStore, g'.components = g.components →
+      ∃ c' ∈ g'.components, c'.identifier = c.identifier ∧ c'.locator = c.locator ∧ c'.preferred = c.preferred :=
+    fun g' h => ⟨c, h ▸ hc, rfl, rfl, rfl⟩
+  cases op with
+  | create f a rs => exact same _ (createG_cases g f a rs).2.1
+  | addMeta i p l =>
+    simp only [stepG]
+    show ∃ c' ∈ (addComponentMetadata g.toStore i p l).1.components, _
+    unfold addComponentMetadata
+    simp only
+    split
+    · exact ⟨c, List.mem_append_left _ hc, rfl, rfl, rfl⟩
+    · rename_i comps' heq
+      exact addExternalRef_keeps _ _ _ _ heq c (List.mem_append_left _ hc)
+  | extRef i l cc w =>
+    simp only [stepG]
+    show ∃ c' ∈ (addComponentReference g.toStore i l cc w).1.components, _
+    unfold addComponentReference
+    simp only
+    split
+    · exact ⟨c, hc, rfl, rfl, rfl⟩
+    · rename_i cs heq
+      exact addExtRefWhere_keeps _ _ _ _ heq c hc
+  | addRef o t => exact same _ (congrArg Store.components (addRef_fields g o t).1)
+  | clearRef o t => exact same _ (congrArg Store.components (clearRef_fields g o t).1)
+  | setRef o a t => exact same _ (congrArg Store.components (setRef_fields g o a t).1)
+  | update => exact same _ (congrArg Store.components (copyAll_weak g g.ids).1)
+  | blob n =>
+    simp only [stepG, storeBlob]
+    split
+    · exact same _ rfl
+    · exact same _ rfl
+
+theorem components_persist (g : GStore) (ops : List GOp) (c : Component) (hc : c ∈ g.components) :
+    ∃ c' ∈ (runG g ops).components, c'.identifier = c.identifier ∧ c'.locator = c.locator ∧ c'.preferred = c.preferred := by
+  induction ops generalizing g c with
+  | nil => exact ⟨c, hc, rfl, rfl, rfl⟩
+  | cons op r ih =>
+    obtain ⟨c1, h1, e1, e2, e3⟩ := components_persist_step g op c hc
+    obtain ⟨c2, h2, f1, f2, f3⟩ := ih (stepG g op) c1 h1
+    exact ⟨c2, by simpa [runG] using h2, f1.trans e1, f2.trans e2, f3.trans e3⟩
+
 end NumbersModel.ObjStore
